@@ -52,6 +52,23 @@ class Background:
         return out
 
 
+def model(ctx, module, cfg, what, label, min_states=2, coverage=False, timeout=2400):
+    """E1 like ctx.check_model, but without TLC's -coverage instrumentation unless asked: it slows
+    these expression-heavy specifications about 5x, and the input-exhaustive models have a single
+    action.  Vacuity is guarded by a minimum number of distinct states (the action was taken for
+    inputs beyond the initial states) and by the negative controls."""
+    if coverage:
+        return ctx.check_model(SPEC, module, cfg, what, label=label, workers=4, timeout=timeout)
+    res = ctx.tlc(SPEC, module, cfg, workers=4, label=label, timeout=timeout)
+    if res.violation:
+        path = ctx.save_replay('%s-%s-%s.txt' % (ctx.prop, module, cfg.replace('.cfg', '')),
+                               'TLC %s on %s/%s\n\n%s' % (res.violation, module, cfg, res.counterexample()))
+        ctx.violation('model:%s:%s:%s' % (module, cfg, res.violation), what + ': ' + res.violation, path)
+    elif res.distinct < min_states:
+        raise vlib.ToolError('vacuous model run %s/%s: only %d distinct states' % (module, cfg, res.distinct))
+    return res
+
+
 def negative_control(ctx, module, cfg, what, timeout=300):
     """The specification of the code BEFORE a fix (variant switch in the cfg) must violate the
     property: shows that the model is able to exhibit the defect the fix removes."""
